@@ -8,6 +8,11 @@ ASSUMPTIONS = [
 ]
 
 CONF = {
+    "C01": {
+        "rule": "L0: rapid-generated (configuration, message, attestation plan) triples for the exported verifier: 1..8 (sometimes 16) enabled keys under six hex spellings plus decoys (garbage, compressed key, 64-byte key, second spelling, empty), threshold 1..entries, message 0..400 random bytes or well-formed, plan slots (signer enabled/disabled/never enabled; payload exact/bit-flipped/prefix/unrelated; v 0/1, 27/28 or raw; high-s twin), arrangement asc/desc/permutation, duplicate (same bytes, twin, respelled v), length edits (-k/+k bytes, one extra valid signature, one fewer), raw random bytes of length 65t, bit mutations of built attestations; oracle: ground truth by construction cross-checked against an independent reference verifier (decred recovery, x/crypto Keccak), enforced both ways (accept => reference accepts and >= t distinct enabled signers; reference accepts with canonical v => accept). L2: the same plans through receive-message and replace-message on the real chain with attesters and threshold moved by real transactions, including submissions signed before a rotation. non-trivial = attestation of exactly 65t bytes containing at least one individually valid signature of an enabled attester over the exact message; distinct by (plan, threshold, set size, spellings)",
+        "quick": {"rapid": [("TestC01", 4000, 1), ("TestC01L2", 300, 1)]},
+        "thorough": {"rapid": [("TestC01", 20000, 12), ("TestC01L2", 1500, 4)], "fuzz": [("FuzzAttestation", 120)]},
+    },
     "C16": {
         "rule": "rapid-generated codec cases of four kinds (message decode, message encode, burn decode, burn encode): byte strings of length 0..600 biased to 0,1,115,116,117,116+131..133 resp. 131,132,133; field values from hostile integer sets and random, field sizes 32 and {0,1,20,31,33,64}; amounts {0,1,2^64-1,2^64,2^128,2^255,2^256-1,random}; oracle: differential against the independent reference codec (accept/reject, every field, exact bytes) plus decode-encode and encode-decode round-trips; non-trivial = accepted case with a non-zero byte in every field; distinct by case content. Thorough adds native coverage-guided fuzzing of both decoders with the same oracle inside the target.",
         "quick": {"rapid": [("TestC16", 100000, 1)]},
@@ -95,6 +100,12 @@ CONF = {
 ALL = ["C%02d" % i for i in range(1, 21)]
 
 MANIFEST_TEXT = {
+    "C01": {
+        "technique": "property-based testing (rapid) with constructed ground truth and an independent reference attestation verifier as differential oracle, at the exported verifier and through receive/replace on the real chain; native go fuzzing of attestation bytes (thorough)",
+        "level": "Exploration over generated configurations, messages and adversarial attestation plans; both directions of the statement.",
+        "note": "Cryptographic soundness of secp256k1/Keccak-256 assumed; go-ethereum (cgo libsecp256k1) vs decred (pure Go) recovery are independent implementations.",
+        "ref": "DESIGN.md section 3 C01",
+    },
     "C16": {
         "technique": "differential property-based testing (rapid) of the message/burn-message codecs against an independent reference codec written from the CCTP layout, with round-trip laws; native go fuzzing with the same oracle (thorough)",
         "level": "Exploration over generated byte strings and field values; layout judged by an independent implementation pinned by hand-computed vectors.",
